@@ -163,9 +163,16 @@ impl MatchBlock {
             return_err!(span, "multiple match entries for `{}`", sym);
         }
 
-        // NB: It's legal for multiple regex to produce same terminal.
+        // Each terminal gets exactly one type entry and one token pattern further down
+        // (`Types::add_term_type`, `lower`), so two match entries cannot produce the same terminal.
         if let MatchMapping::Terminal(user_name) = &user_name {
-            self.match_user_names.insert(user_name.clone());
+            if !self.match_user_names.insert(user_name.clone()) {
+                return_err!(
+                    span,
+                    "multiple match entries produce the terminal `{}`",
+                    user_name
+                );
+            }
         }
 
         self.match_entries.push(MatchEntry {
